@@ -11,7 +11,7 @@ PARTIAL = ('proved for every operation and every history: existing numbers are n
 ASSUMPTIONS = []
 TRUSTED = []
 
-def correspondence(rng, tier):
+def _base_correspondence(rng, tier):
     n = 240 if tier == 'quick' else 4000
     return kernel.run_kernel_corr(rng, n, 'history', 'C10', malformed_every=4)
 
@@ -114,3 +114,14 @@ def replay(payload):
         except Exception as ex:
             print('replay raised', repr(ex)); return 1
     return 0
+
+def correspondence(rng, tier):
+    r = _base_correspondence(rng, tier)
+    # extra_corr: complex_history_programs: complex-kernel histories incl. a dof() that raises part-way followed by dof() of unrelated numbers (class-level accumulators), model CKernel.v
+    f = __import__('cgen').run_ckernel_corr(rng, 'history', 'C10c', tier=tier)
+    r['mismatches'] += f.get('mismatches', [])
+    r['programs'] += f.get('programs', 0); r['steps'] += f.get('steps', 0)
+    r['distinct'] = r.get('distinct', 0) + f.get('distinct', 0)
+    r.setdefault('distribution', {})['complex_history_programs'] = f.get('programs', 0)
+    r['rule'] = r.get('rule', '') + '; plus complex_history_programs: complex-kernel histories incl. a dof() that raises part-way followed by dof() of unrelated numbers (class-level accumulators), model CKernel.v'
+    return r
